@@ -52,12 +52,12 @@ partial def loop {σ : Type} (h : Handler σ) (inp : IO.FS.Stream) (out : IO.FS.
       let endMsgs := if open_ then h.onEnd s else []
       for m in endMsgs do out.putStrLn s!"{m} case={caseId} line=end"
       let (s', msgs) := h.onCase args ans
-      for m in msgs do out.putStrLn s!"{m} case={id} line={lineNo} :: {l}"
+      for m in msgs do out.putStrLn s!"{m} case={id} line={lineNo} :: {(l.take 240).toString}"
       let st := countMsgs (countMsgs st endMsgs) msgs
       loop h inp out s' id true (lineNo + 1) { st with cases := st.cases + 1, lines := st.lines + 1 }
     | op :: args =>
       let (s', msgs) := h.onOp s op args ans
-      for m in msgs do out.putStrLn s!"{m} case={caseId} line={lineNo} :: {l}"
+      for m in msgs do out.putStrLn s!"{m} case={caseId} line={lineNo} :: {(l.take 240).toString}"
       loop h inp out s' caseId open_ (lineNo + 1) { (countMsgs st msgs) with lines := st.lines + 1 }
     | [] => loop h inp out s caseId open_ (lineNo + 1) st
 
